@@ -87,6 +87,7 @@ static void opaque_roundtrip(mon::Rng& rng)
     else n_bits_ok++;
   }
   mon::distinct(mon::mix(0x0a, std::hash<std::string>()(ref::name<T>())));
+  { static int ns = 0; if (ns++ % 4 == 0) mon::sample(mon::fmt("{\"opaque_roundtrip_type\":\"%s\",\"host_bytes\":%zu}", ref::name<T>(), sizeof(T))); }
 }
 
 // ----------------------------------- opaque values through invoke / callback
@@ -212,6 +213,7 @@ static void static_pair(mon::Rng& rng)
     else n_cast_ok++;
   }
   mon::evals(n);
+  { static int ns = 0; if (n && ns++ % 23 == 0) mon::sample(mon::fmt("{\"cast\":\"sandbox_static_cast<%s>(%s %s)\",\"values_compared_with_cpp_cast\":%llu}", ref::name<L>(), FromVolatile ? "tainted_volatile" : "tainted", ref::name<R>(), (unsigned long long)n)); }
   if (n) mon::distinct(mon::mix(mon::mix(0x5c, FromVolatile), mon::mix(std::hash<std::string>()(ref::name<L>()), std::hash<std::string>()(ref::name<R>()))));
 }
 
